@@ -735,7 +735,7 @@ func (vc *VC) goraceObligations(fn *ssa.Function) {
 						name := fmt.Sprintf("%s#gorace:%s@%s", key, al.Comment, strings.TrimSpace(vc.eng.lineText(pos)))
 						vc.obls = append(vc.obls, &Obligation{Name: name, Kind: "lockset",
 							Desc: fmt.Sprintf("variable %s is written by the goroutine started here and accessed by %s afterwards (%s:%d) with no synchronisation visible", al.Comment, f.Name(), shortFile(apos.Filename), apos.Line),
-							Pos: pos, PC: "true", Goal: "false", Mark: vc.sc.mark(), Func: key})
+							Pos:  pos, PC: "true", Goal: "false", Mark: vc.sc.mark(), Func: key})
 					}
 				}
 			}
